@@ -2054,6 +2054,37 @@ def decode_variants(r, case):
     return out
 
 
+def gen_srv_wfail(r, n, tier):
+    """sessions over a transport whose (k+1)-th write fails (`W<k>` leading step): every fault
+    position 0..4 for fixed three- and four-request sessions on both framings (incl. requests that
+    are not answered: unconfigured unit, broadcast), then random sessions with a random position"""
+    units = "1:s0.0.100.3,s2.0.100.5;2:s0.0.50.7,s2.0.50.8"
+    for rtu_mode in (False, True):
+        fr = "r" if rtu_mode else "t"
+        mk = (lambda tx, u, pdu: rtu(u, pdu)) if rtu_mode else mbap
+        reqs = [(1, bytes([5, 0, 1, 0xFF, 0])), (9, bytes([1, 0, 0, 0, 8])), (2, bytes([6, 0, 2, 0x12, 0x34])),
+                (1, bytes([3, 0, 200, 0, 1])), (1, bytes([16, 0, 3, 0, 1, 2, 0, 9]))]
+        if rtu_mode:
+            reqs.insert(1, (0, bytes([6, 0, 4, 0, 7])))          # broadcast: executed, never answered
+        else:
+            reqs.insert(1, (1, bytes([0x63, 1, 2])))             # unknown function: answered with 01
+        frames = [hx(mk(10 + i, u, pdu)) for i, (u, pdu) in enumerate(reqs)]
+        for k in range(0, len(frames) + 1):
+            yield f"srv {fr} d000 - {units} W{k},{','.join(frames)}"
+            yield f"srv {fr} d000 - {units} W{k},{''.join(frames)}"
+            yield f"srv {fr} d000 deny.r {units} W{k},{','.join(frames)}" if not rtu_mode else f"srv {fr} d322 - {units} W{k},{','.join(frames)},!s"
+    half = n // 2
+    base = list(gen_srv(Rng(r.next(), "a"), half, tier, False))[-half:] + list(gen_srv(Rng(r.next(), "b"), half, tier, True))[-half:]
+    for c in base:
+        tok = c.split(" ")
+        if tok[5] == "-":
+            continue
+        nsteps = tok[5].count(",") + 1
+        k = r.below(min(nsteps, 6) + 1) if r.chance(3, 4) else r.below(3)
+        tok[5] = f"W{k}," + tok[5]
+        yield " ".join(tok)
+
+
 def gen_dec_srv(r, n, tier):
     base = list(gen_srv(Rng(r.next(), "a"), n, "quick", False))[-n:] + list(gen_srv(Rng(r.next(), "b"), n, "quick", True))[-n:]
     for c in base:
@@ -2108,6 +2139,7 @@ SUITES = {
     "cl_enc": gen_cl_enc,
     "cl_resp": gen_cl_resp,
     "srv_fuzz": gen_srv_fuzz,
+    "srv_wfail": gen_srv_wfail,
     "rdr_fuzz": gen_rdr_fuzz,
     "dec_srv": gen_dec_srv,
     "dec_rdr": gen_dec_rdr,
